@@ -11,20 +11,26 @@ import (
 	"strconv"
 	"strings"
 	"sync"
+	"time"
 
 	shell_operator "github.com/flant/shell-operator/pkg/shell-operator"
+	"github.com/flant/shell-operator/pkg/utils/verifsched"
 )
 
 // The bash hook used by every application case. Its behaviour at the i-th run of the case is the
-// i-th line of ctl/script; every run is logged to ctl/log as `<hook> <from>><to>[id@ver,…]`.
+// i-th line of ctl/script.<uid of the request in its binding context>; every run is logged to ctl/log
+// as `<hook>#<binding> <uid> <from>><to>[id@ver,…]`.
 const c15HookScript = `#!/usr/bin/env bash
 ctl="$(cd "$(dirname "$0")/.." && pwd)/ctl"
 me="$(basename "$0")"
 if [[ "$1" == "--config" ]]; then cat "$ctl/$me.cfg"; exit 0; fi
-n=$(cat "$ctl/counter"); echo $((n+1)) > "$ctl/counter"
-item=$(sed -n "$((n+1))p" "$ctl/script")
-jq -r --arg me "$me" '.[0] | $me + "#" + (.binding // "") + " " + .fromVersion + ">" + .toVersion + "[" + ([(.review.request.objects // [])[] | ((.metadata.name // "0") + "@" + (.apiVersion // ""))] | join(",")) + "]"' "$BINDING_CONTEXT_PATH" >> "$ctl/log"
-group=$(cat "$ctl/group"); desired=$(cat "$ctl/desired")
+# what this run does is scripted per request: the i-th run that finds request <uid> in its binding
+# context does the i-th line of ctl/script.<uid> (requests may be in flight at the same time)
+uid=$(jq -r '.[0].review.request.uid // "none" | gsub("[^A-Za-z0-9_-]"; "_")' "$BINDING_CONTEXT_PATH")
+n=$(cat "$ctl/counter.$uid" 2>/dev/null); echo $((n+1)) > "$ctl/counter.$uid"
+item=$(sed -n "$((n+1))p" "$ctl/script.$uid" 2>/dev/null)
+jq -r --arg me "$me" --arg uid "$uid" '.[0] | $me + "#" + (.binding // "") + " " + $uid + " " + .fromVersion + ">" + .toVersion + "[" + ([(.review.request.objects // [])[] | ((.metadata.name // "0") + "@" + (.apiVersion // ""))] | join(",")) + "]"' "$BINDING_CONTEXT_PATH" >> "$ctl/log"
+group=$(cat "$ctl/group"); desired=$(cat "$ctl/desired.$uid" 2>/dev/null)
 to=$(jq -r '.[0].toVersion' "$BINDING_CONTEXT_PATH")
 case "$to" in */*) fullto="$to";; *) fullto="$group/$to";; esac
 objs() { # $1 = count, $2 = apiVersion to set ("" = leave)
@@ -85,6 +91,16 @@ type c15E2E struct {
 	Desired string
 	NObjs   int
 	Script  []string
+	// Rate[h]: hook h is rate limited (settings.executionMinInterval / executionBurst): every run of it
+	// passes a real wait in RateLimitWait between "task built" and "binding context written"
+	Rate []bool
+	// Sched != nil: the requests (0 = the first one, 1… = More) are in flight at the same time. Each
+	// element is a request number and moves that request one stage forward while all the others stand
+	// still: sent and handled up to the yield point conversion.taskBuilt of its first step (chain found,
+	// task and binding context of the step built, hook run not begun) -> that step's hook run, up to the
+	// same point of the next step -> … -> answered. Requests the schedule leaves unfinished are finished
+	// one after the other at the end.
+	Sched []int
 }
 
 func c15ObjsTok(ids []string, vers []string) string {
@@ -111,7 +127,202 @@ func c15CanonMsg(m string) string {
 	return "own:" + strings.ReplaceAll(m, " ", "_")
 }
 
-// c15RunE2E runs one ConversionReview through the real handler chain and records the case.
+// how long one stage of a request in flight (at most one hook run) may take before the case is given
+// up as undecidable
+const c15StageMax = 25 * time.Second
+
+// one operator over the hooks of a case
+type c15Env struct {
+	c          *Case
+	e          c15E2E
+	ctl        string
+	router     http.Handler
+	owner      map[string]string // rule -> "<hook>#<binding>" that declared it
+	nonLast    map[string]bool   // rules of a binding that is not the last one of its hook
+	splitHooks int
+}
+
+// one request of a case
+type c15Flight struct {
+	qi     int
+	q      c15Req
+	uid    string
+	body   string
+	params string
+	lines  []string // the log lines of the hook runs made on behalf of this request
+	rec    *httptest.ResponseRecorder
+	// overlap
+	launched bool
+	arrive   <-chan *verifsched.Arrival
+	parked   *verifsched.Arrival
+	done     chan *httptest.ResponseRecorder
+}
+
+func (v *c15Env) logNow() []string {
+	b, _ := os.ReadFile(filepath.Join(v.ctl, "log"))
+	t := string(b)
+	if k := strings.LastIndexByte(t, '\n'); k >= 0 {
+		t = t[:k]
+	} else {
+		t = ""
+	}
+	var out []string
+	for _, l := range strings.Split(t, "\n") {
+		if l != "" {
+			out = append(out, l)
+		}
+	}
+	return out
+}
+
+// prepare writes the control files of request qi (its script, keyed by its uid) and builds its body:
+// object names are qi*100+1… — no two requests of a case share an object.
+func (v *c15Env) prepare(qi int, q c15Req) *c15Flight {
+	uid := fmt.Sprintf("uid-%d-%d", v.c.Idx, qi)
+	_ = os.WriteFile(filepath.Join(v.ctl, "counter."+uid), []byte("0\n"), 0o644)
+	_ = os.WriteFile(filepath.Join(v.ctl, "script."+uid), []byte(strings.Join(q.Script, "\n")+"\n"), 0o644)
+	_ = os.WriteFile(filepath.Join(v.ctl, "desired."+uid), []byte(q.Desired), 0o644)
+	var ids, vers, objs []string
+	for i := 1; i <= q.NObjs; i++ {
+		ids = append(ids, strconv.Itoa(qi*100+i))
+		vers = append(vers, q.From)
+		objs = append(objs, fmt.Sprintf(`{"apiVersion":%q,"kind":"Thing","metadata":{"name":"%d"}}`, q.From, qi*100+i))
+	}
+	body := fmt.Sprintf(`{"apiVersion":"apiextensions.k8s.io/v1","kind":"ConversionReview","request":{"uid":%q,"desiredAPIVersion":%q,"objects":[%s]}}`,
+		uid, q.Desired, strings.Join(objs, ","))
+	params := fmt.Sprintf("rules=%s links=%s to=%s group=%s objs=%s script=%s", c15Rules(v.e.Rules), c15Rules(v.e.Rules),
+		c15Tok(q.Desired), c15Group, c15ObjsTok(ids, vers), strings.ReplaceAll(joinStrs(q.Script), ",", ";"))
+	return &c15Flight{qi: qi, q: q, uid: uid, body: body, params: params}
+}
+
+func (v *c15Env) send(f *c15Flight) *httptest.ResponseRecorder {
+	req := httptest.NewRequest(http.MethodPost, "/things.g.io", bytes.NewReader([]byte(f.body)))
+	req.Header.Set("Content-Type", "application/json")
+	rec := httptest.NewRecorder()
+	v.router.ServeHTTP(rec, req)
+	return rec
+}
+
+// record turns what request f showed (its answer, the hook runs made for it) into the op lines.
+func (v *c15Env) record(f *c15Flight, withOp bool) {
+	c := v.c
+	rec := f.rec
+	var review struct {
+		Response *struct {
+			UID              string            `json:"uid"`
+			ConvertedObjects []json.RawMessage `json:"convertedObjects"`
+			Result           struct {
+				Status  string `json:"status"`
+				Message string `json:"message"`
+			} `json:"result"`
+		} `json:"response"`
+	}
+	status, reply, oreply := "", "", ""
+	if rec == nil {
+		status = "not-answered"
+	} else if rec.Code != http.StatusOK {
+		status = fmt.Sprintf("http-%d", rec.Code)
+	} else if err := json.Unmarshal(rec.Body.Bytes(), &review); err != nil || review.Response == nil {
+		status = "undecodable-response"
+	} else {
+		status = review.Response.Result.Status
+		if review.Response.UID != f.uid {
+			status = "uid-not-echoed"
+		}
+	}
+	switch status {
+	case "Success":
+		var oi, ov []string
+		for _, raw := range review.Response.ConvertedObjects {
+			var o struct {
+				APIVersion string `json:"apiVersion"`
+				Metadata   struct {
+					Name string `json:"name"`
+				} `json:"metadata"`
+			}
+			_ = json.Unmarshal(raw, &o) // `null`, `{}`: no name, no apiVersion
+			if o.Metadata.Name == "" {
+				o.Metadata.Name = "0"
+			}
+			oi = append(oi, o.Metadata.Name)
+			ov = append(ov, o.APIVersion)
+		}
+		reply = "Success objs=" + c15ObjsTok(oi, ov)
+		oreply = "status=Success robjs=" + c15ObjsTok(oi, ov)
+	case "Failure":
+		m := c15CanonMsg(review.Response.Result.Message)
+		reply = "Failed msg=" + m
+		oreply = "status=Failed msg=" + m
+	default:
+		reply = status
+		oreply = "status=" + status
+	}
+	// the hook runs, in order
+	var inv, handed []string
+	for _, l := range f.lines {
+		fl := strings.SplitN(l, " ", 3)
+		if len(fl) != 3 || strings.IndexByte(fl[2], '[') < 0 {
+			inv = append(inv, "unreadable-log-line")
+			handed = append(handed, "?")
+			continue
+		}
+		entry := fl[2]
+		if strings.HasSuffix(entry, "[]") {
+			entry = strings.TrimSuffix(entry, "[]") + "[-]"
+		}
+		entry = strings.ReplaceAll(entry, "@,", "@-,")
+		entry = strings.ReplaceAll(entry, "@]", "@-]")
+		ruleTok := entry[:strings.IndexByte(entry, '[')]
+		if v.owner[ruleTok] != fl[0] {
+			entry = "ran-in-a-hook-or-binding-that-did-not-register-it:" + fl[0] + ":" + entry
+		}
+		handed = append(handed, fl[1])
+		if fl[1] != f.uid {
+			// the review in the binding context of a run made for this request is another request's
+			c.Note("e2e:a-run-was-handed-another-request")
+		}
+		if v.nonLast[ruleTok] {
+			c.Note("e2e:ran-a-rule-of-a-non-last-binding")
+		}
+		inv = append(inv, entry)
+	}
+	invTok := "-"
+	if len(inv) > 0 {
+		invTok = strings.Join(inv, ";")
+	}
+	if withOp {
+		c.Op("e2e "+f.params, reply+" inv="+invTok)
+	} else if v.e.Sched == nil {
+		c.Note("e2e:later-request-on-a-warm-cache")
+	}
+	handedTok := "-"
+	if len(handed) > 0 {
+		handedTok = strings.Join(handed, ";")
+	}
+	c.Oracle("e2e " + f.params + " inv=" + invTok + " req=" + f.uid + " handed=" + handedTok + " " + oreply)
+	c.Note("e2e:reply:" + strings.SplitN(reply, "=", 2)[0] + func() string {
+		if strings.HasPrefix(reply, "Failed msg=own:") {
+			return "=own"
+		}
+		if i := strings.Index(reply, "="); i >= 0 && strings.HasPrefix(reply, "Failed") {
+			return "=" + reply[i+1:]
+		}
+		return ""
+	}())
+	c.Note(fmt.Sprintf("e2e:runs=%d", len(inv)))
+	if v.splitHooks > 0 {
+		c.Note("e2e:bindings:a-hook-splits-the-crd's-rules-over-several-bindings")
+	} else {
+		c.Note("e2e:bindings:one-per-hook")
+	}
+	for _, s := range f.q.Script {
+		c.Note("e2e:script:" + s[:1])
+	}
+	c.Nontrivial = c.Nontrivial || len(inv) > 0
+}
+
+// c15RunE2E runs the ConversionReviews of a case through the real handler chain (one after the other,
+// or in flight at the same time in a forced interleaving) and records the case.
 func c15RunE2E(r *Run, c *Case, e c15E2E) {
 	root := filepath.Join(r.Scratch, fmt.Sprintf("c15-e2e-%d", c.Idx))
 	hooksDir := filepath.Join(root, "hooks")
@@ -135,7 +346,7 @@ func c15RunE2E(r *Run, c *Case, e c15E2E) {
 			maxBind = bindOf(i)
 		}
 	}
-	splitHooks := 0
+	v := &c15Env{c: c, e: e, ctl: ctl, owner: map[string]string{}, nonLast: map[string]bool{}}
 	for h := 0; h < e.NHooks; h++ {
 		// one kubernetesCustomResourceConversion binding per binding number that has rules, all for
 		// the same CRD (the shape of pkg/hook/testdata/hook_manager_conversion_chains/hook.sh)
@@ -156,9 +367,14 @@ func c15RunE2E(r *Run, c *Case, e c15E2E) {
 			continue
 		}
 		if len(bindings) > 1 {
-			splitHooks++
+			v.splitHooks++
 		}
-		cfg := fmt.Sprintf(`{"configVersion":"v1","kubernetesCustomResourceConversion":[%s]}`, strings.Join(bindings, ","))
+		settings := ""
+		if h < len(e.Rate) && e.Rate[h] {
+			settings = `"settings":{"executionMinInterval":"40ms","executionBurst":1},`
+			c.Note("e2e:a-rate-limited-hook")
+		}
+		cfg := fmt.Sprintf(`{"configVersion":"v1",%s"kubernetesCustomResourceConversion":[%s]}`, settings, strings.Join(bindings, ","))
 		_ = os.WriteFile(filepath.Join(ctl, hookName(h)+".cfg"), []byte(cfg), 0o644)
 		// a hard link to the one script written before the parallel cases start: writing an
 		// executable while another case forks gives "text file busy"
@@ -168,6 +384,15 @@ func c15RunE2E(r *Run, c *Case, e c15E2E) {
 		}
 	}
 	_ = os.WriteFile(filepath.Join(ctl, "group"), []byte(c15Group), 0o644)
+	_ = os.WriteFile(filepath.Join(ctl, "log"), nil, 0o644)
+	for i, rl := range e.Rules {
+		for j := range e.Rules {
+			if e.Owner[j] == e.Owner[i] && bindOf(j) > bindOf(i) {
+				v.nonLast[rl.String()] = true
+			}
+		}
+		v.owner[rl.String()] = hookName(e.Owner[i]) + "#" + bindName(e.Owner[i], bindOf(i))
+	}
 
 	op, handler, err := shell_operator.VerifC15NewOperator(hooksDir, tmp)
 	if err != nil {
@@ -175,149 +400,132 @@ func c15RunE2E(r *Run, c *Case, e c15E2E) {
 		return
 	}
 	defer op.VerifC15Stop()
+	v.router = handler.Router
 
 	reqs := append([]c15Req{{e.From, e.Desired, e.NObjs, e.Script}}, e.More...)
+	if e.Sched == nil {
+		for qi, q := range reqs {
+			f := v.prepare(qi, q)
+			before := len(v.logNow())
+			f.rec = v.send(f)
+			if l := v.logNow(); len(l) > before {
+				f.lines = l[before:]
+			}
+			v.record(f, qi == 0)
+		}
+		return
+	}
+
+	// ---- requests in flight at the same time, interleaved as scripted
+	fl := make([]*c15Flight, len(reqs))
 	for qi, q := range reqs {
-		e.From, e.Desired, e.NObjs, e.Script = q.From, q.Desired, q.NObjs, q.Script
-		_ = os.WriteFile(filepath.Join(ctl, "counter"), []byte("0\n"), 0o644)
-		_ = os.WriteFile(filepath.Join(ctl, "script"), []byte(strings.Join(e.Script, "\n")+"\n"), 0o644)
-		_ = os.WriteFile(filepath.Join(ctl, "desired"), []byte(e.Desired), 0o644)
-		_ = os.WriteFile(filepath.Join(ctl, "log"), nil, 0o644)
-
-		var ids, vers []string
-		var objs []string
-		for i := 1; i <= e.NObjs; i++ {
-			ids = append(ids, strconv.Itoa(i))
-			vers = append(vers, e.From)
-			objs = append(objs, fmt.Sprintf(`{"apiVersion":%q,"kind":"Thing","metadata":{"name":"%d"}}`, e.From, i))
+		fl[qi] = v.prepare(qi, q)
+	}
+	key := func(f *c15Flight) string { return "conversion/" + f.uid }
+	// moves request f one stage forward while every other request stands still; "" = timeout
+	move := func(f *c15Flight) string {
+		if f.rec != nil {
+			return "answered"
 		}
-		uid := fmt.Sprintf("uid-%d-%d", c.Idx, qi)
-		body := fmt.Sprintf(`{"apiVersion":"apiextensions.k8s.io/v1","kind":"ConversionReview","request":{"uid":%q,"desiredAPIVersion":%q,"objects":[%s]}}`,
-			uid, e.Desired, strings.Join(objs, ","))
-
-		params := fmt.Sprintf("rules=%s links=%s to=%s group=%s objs=%s script=%s", c15Rules(e.Rules), c15Rules(e.Rules),
-			c15Tok(e.Desired), c15Group, c15ObjsTok(ids, vers), strings.ReplaceAll(joinStrs(e.Script), ",", ";"))
-
-		req := httptest.NewRequest(http.MethodPost, "/things.g.io", bytes.NewReader([]byte(body)))
-		req.Header.Set("Content-Type", "application/json")
-		rec := httptest.NewRecorder()
-		handler.Router.ServeHTTP(rec, req)
-
-		// ---- observation
-		var review struct {
-			Response *struct {
-				UID              string            `json:"uid"`
-				ConvertedObjects []json.RawMessage `json:"convertedObjects"`
-				Result           struct {
-					Status  string `json:"status"`
-					Message string `json:"message"`
-				} `json:"result"`
-			} `json:"response"`
+		before := len(v.logNow())
+		if !f.launched {
+			f.launched = true
+			f.arrive = sched.Subscribe(key(f))
+			f.done = make(chan *httptest.ResponseRecorder, 1)
+			go func() { f.done <- v.send(f) }()
+		} else if f.parked != nil {
+			f.parked.Release()
+			f.parked = nil
 		}
-		status, reply, oreply := "", "", ""
-		if rec.Code != http.StatusOK {
-			status = fmt.Sprintf("http-%d", rec.Code)
-		} else if err := json.Unmarshal(rec.Body.Bytes(), &review); err != nil || review.Response == nil {
-			status = "undecodable-response"
-		} else {
-			status = review.Response.Result.Status
-			if review.Response.UID != uid {
-				status = "uid-not-echoed"
+		res := ""
+		select {
+		case a := <-f.arrive:
+			f.parked = a
+			res = "parked"
+		case rec := <-f.done:
+			f.rec = rec
+			res = "answered"
+		case <-time.After(c15StageMax):
+		}
+		// only this request moved: the hook runs logged meanwhile are its runs
+		if l := v.logNow(); len(l) > before {
+			f.lines = append(f.lines, l[before:]...)
+		}
+		return res
+	}
+	stuck := ""
+	first := -1
+	maxInFlight, inFlight := 0, 0
+	step := func(qi int) bool {
+		f := fl[qi]
+		if first < 0 {
+			first = qi
+		}
+		was := f.launched && f.rec == nil
+		switch move(f) {
+		case "":
+			stuck = fmt.Sprintf("request %d", qi)
+			return false
+		case "parked":
+			if !was {
+				inFlight++
+			}
+		case "answered":
+			if was {
+				inFlight--
 			}
 		}
-		switch status {
-		case "Success":
-			var oi, ov []string
-			for _, raw := range review.Response.ConvertedObjects {
-				var o struct {
-					APIVersion string `json:"apiVersion"`
-					Metadata   struct {
-						Name string `json:"name"`
-					} `json:"metadata"`
+		if inFlight > maxInFlight {
+			maxInFlight = inFlight
+		}
+		return true
+	}
+	for _, qi := range e.Sched {
+		if qi < 0 || qi >= len(fl) {
+			continue
+		}
+		if !step(qi) {
+			break
+		}
+	}
+	for qi := 0; qi < len(fl) && stuck == ""; qi++ {
+		for fl[qi].rec == nil && step(qi) {
+		}
+	}
+	for _, f := range fl {
+		if f.launched {
+			sched.Unsubscribe(key(f))
+		}
+	}
+	if stuck != "" {
+		// let everything end: the script cannot be followed any further
+		for _, f := range fl {
+			if f.parked != nil {
+				f.parked.Release()
+				f.parked = nil
+			}
+		}
+		for _, f := range fl {
+			for f.launched && f.rec == nil {
+				select {
+				case a := <-f.arrive:
+					a.Release()
+					continue
+				case f.rec = <-f.done:
+					continue
+				case <-time.After(c15StageMax):
 				}
-				_ = json.Unmarshal(raw, &o) // `null`, `{}`: no name, no apiVersion
-				if o.Metadata.Name == "" {
-					o.Metadata.Name = "0"
-				}
-				oi = append(oi, o.Metadata.Name)
-				ov = append(ov, o.APIVersion)
+				break
 			}
-			reply = "Success objs=" + c15ObjsTok(oi, ov)
-			oreply = "status=Success robjs=" + c15ObjsTok(oi, ov)
-		case "Failure":
-			m := c15CanonMsg(review.Response.Result.Message)
-			reply = "Failed msg=" + m
-			oreply = "status=Failed msg=" + m
-		default:
-			reply = status
-			oreply = "status=" + status
 		}
-		// the hook runs, in order
-		owner := map[string]string{}
-		nonLast := map[string]bool{} // rules of a binding that is not the last one of its hook
-		for i, rl := range e.Rules {
-			for j := range e.Rules {
-				if e.Owner[j] == e.Owner[i] && bindOf(j) > bindOf(i) {
-					nonLast[rl.String()] = true
-				}
-			}
-			owner[rl.String()] = hookName(e.Owner[i]) + "#" + bindName(e.Owner[i], bindOf(i))
-		}
-		var inv []string
-		logB, _ := os.ReadFile(filepath.Join(ctl, "log"))
-		for _, l := range strings.Split(strings.TrimSpace(string(logB)), "\n") {
-			if l == "" {
-				continue
-			}
-			f := strings.SplitN(l, " ", 2)
-			if len(f) != 2 {
-				inv = append(inv, "unreadable-log-line")
-				continue
-			}
-			entry := f[1]
-			if strings.HasSuffix(entry, "[]") {
-				entry = strings.TrimSuffix(entry, "[]") + "[-]"
-			}
-			entry = strings.ReplaceAll(entry, "@,", "@-,")
-			entry = strings.ReplaceAll(entry, "@]", "@-]")
-			ruleTok := entry[:strings.IndexByte(entry, '[')]
-			if owner[ruleTok] != f[0] {
-				entry = "ran-in-a-hook-or-binding-that-did-not-register-it:" + f[0] + ":" + entry
-			}
-			if nonLast[ruleTok] {
-				c.Note("e2e:ran-a-rule-of-a-non-last-binding")
-			}
-			inv = append(inv, entry)
-		}
-		invTok := "-"
-		if len(inv) > 0 {
-			invTok = strings.Join(inv, ";")
-		}
-		if qi == 0 {
-			c.Op("e2e "+params, reply+" inv="+invTok)
-		} else {
-			c.Note("e2e:later-request-on-a-warm-cache")
-		}
-		c.Oracle("e2e " + params + " inv=" + invTok + " " + oreply)
-		c.Note("e2e:reply:" + strings.SplitN(reply, "=", 2)[0] + func() string {
-			if strings.HasPrefix(reply, "Failed msg=own:") {
-				return "=own"
-			}
-			if i := strings.Index(reply, "="); i >= 0 && strings.HasPrefix(reply, "Failed") {
-				return "=" + reply[i+1:]
-			}
-			return ""
-		}())
-		c.Note(fmt.Sprintf("e2e:runs=%d", len(inv)))
-		if splitHooks > 0 {
-			c.Note("e2e:bindings:a-hook-splits-the-crd's-rules-over-several-bindings")
-		} else {
-			c.Note("e2e:bindings:one-per-hook")
-		}
-		for _, s := range e.Script {
-			c.Note("e2e:script:" + s[:1])
-		}
-		c.Nontrivial = c.Nontrivial || len(inv) > 0
+		c.Inconcl = "the scripted interleaving got stuck at " + stuck + " (a yield point was not reached or a hook run did not end in time)"
+		return
+	}
+	c.Note(fmt.Sprintf("overlap:requests=%d", len(fl)))
+	c.Note(fmt.Sprintf("overlap:most-in-flight=%d", maxInFlight))
+	for _, f := range fl {
+		// the request handled first found a cold cache: the model's chain is the one chosen
+		v.record(f, f.qi == 0 && first == 0)
 	}
 }
 
@@ -405,6 +613,31 @@ func c15E2ECorpus(r *Run) {
 			c15RunE2E(r, c, c15E2E{Rules: two, Owner: []int{0, 0}, NHooks: 1, From: "g.io/v1", Desired: "g.io/v3", NObjs: 3, Script: sc})
 		})
 	}
+	// requests in flight at the same time: every hook run and every answer belongs to its own request
+	one := []c15Rule{{"v1", "v2"}}
+	r.One(30, func(c *Case, _ *Rng) {
+		c.Desc = "corpus: two requests for the same rule in flight: A built, B built, A's hook runs, B's hook runs (the hook is rate limited)"
+		c15RunE2E(r, c, c15E2E{Rules: one, Owner: []int{0}, NHooks: 1, Rate: []bool{true}, From: "g.io/v1", Desired: "g.io/v2", NObjs: 1,
+			Script: []string{"k1"}, More: []c15Req{{"g.io/v1", "g.io/v2", 2, []string{"k2"}}}, Sched: []int{0, 1, 0, 1}})
+	})
+	r.One(31, func(c *Case, _ *Rng) {
+		c.Desc = "corpus: two requests for the same two-step chain in flight, step by step in turns, B overtakes A at the second step"
+		c15RunE2E(r, c, c15E2E{Rules: two, Owner: []int{0, 1}, NHooks: 2, From: "g.io/v1", Desired: "g.io/v3", NObjs: 2,
+			Script: []string{"k2", "k2"}, More: []c15Req{{"g.io/v1", "g.io/v3", 1, []string{"k1", "k1"}}}, Sched: []int{0, 1, 0, 1, 1, 0}})
+	})
+	r.One(32, func(c *Case, _ *Rng) {
+		c.Desc = "corpus: three requests in flight over one hook with two bindings: v1->v3, v2->v3 (shares the second rule) and v3->v1 (down); the first one fails at step 2 with its own message"
+		c15RunE2E(r, c, c15E2E{Rules: updown, Owner: []int{0, 0, 0, 0, 1}, Bind: []int{0, 0, 1, 1, 0}, NHooks: 2, Rate: []bool{true, false},
+			From: "g.io/v1", Desired: "g.io/v3", NObjs: 2, Script: []string{"k2", "m0:not-me"},
+			More:  []c15Req{{"g.io/v2", "g.io/v3", 1, []string{"k1"}}, {"g.io/v3", "g.io/v1", 3, []string{"k3", "k3"}}},
+			Sched: []int{0, 1, 2, 0, 2, 1, 0, 2}})
+	})
+	r.One(33, func(c *Case, _ *Rng) {
+		c.Desc = "corpus: a request arrives and is answered while another one for the same rule waits between task built and hook run; then a third one arrives"
+		c15RunE2E(r, c, c15E2E{Rules: one, Owner: []int{0}, NHooks: 1, From: "g.io/v1", Desired: "g.io/v2", NObjs: 2,
+			Script: []string{"k2"}, More: []c15Req{{"g.io/v1", "g.io/v2", 1, []string{"k1"}}, {"g.io/v1", "g.io/v2", 3, []string{"x"}}},
+			Sched: []int{0, 1, 1, 2, 0, 2}})
+	})
 }
 
 // c15MixedItem is a hook answer with one letter per object (see the hook script): mostly converted
@@ -570,4 +803,182 @@ func c15E2ERandom(r *Run) {
 		}
 		c15RunE2E(r, c, e)
 	})
+}
+
+// c15Versions lists the short versions the rules mention.
+func c15Versions(rules []c15Rule) []string {
+	var vs []string
+	seen := map[string]bool{}
+	for _, rl := range rules {
+		for _, v := range []string{c15Trim(rl.From), c15Trim(rl.To)} {
+			if !seen[v] {
+				seen[v] = true
+				vs = append(vs, v)
+			}
+		}
+	}
+	return vs
+}
+
+// c15E2EOverlap: 2-3 conversion requests in flight on one operator at the same time.
+func c15E2EOverlap(r *Run) {
+	n := r.N(160, 1200)
+	r.Cases(600000, n, 0, func(c *Case, rng *Rng) {
+		var e c15E2E
+		var a, b string
+		d := 0
+		for try := 0; ; try++ {
+			nv := rng.Range(2, 5)
+			e.Rules = c15RandomGraph(rng, nv, false)
+			seen := map[c15Rule]bool{}
+			var rs []c15Rule
+			for _, rl := range e.Rules {
+				if !seen[rl] {
+					seen[rl] = true
+					rs = append(rs, rl)
+				}
+			}
+			e.Rules = rs
+			a, b = c15Names[rng.Intn(nv)], c15Names[rng.Intn(nv)]
+			if a == b || len(e.Rules) == 0 {
+				continue
+			}
+			var cnt int
+			cnt, d = c15ShortestCount(e.Rules, a, b)
+			if cnt == 1 && d >= 1 && d <= 3 {
+				break
+			}
+			if try > 60 {
+				e.Rules = []c15Rule{{a, b}}
+				d = 1
+				break
+			}
+		}
+		// a scripted outcome per step: mostly every step succeeds
+		mkScript := func(steps, nobj int) []string {
+			var sc []string
+			for i := 0; i < steps; i++ {
+				it := fmt.Sprintf("k%d", nobj)
+				if rng.Chance(10) {
+					it = PickOne(rng, []string{"x", "e", fmt.Sprintf("m%d:own-%d", nobj, rng.Intn(90)), fmt.Sprintf("k%d", nobj+1),
+						fmt.Sprintf("d%d", nobj), fmt.Sprintf("w%d", nobj)})
+				}
+				sc = append(sc, it)
+			}
+			return sc
+		}
+		e.From, e.Desired = c15Group+"/"+a, c15Group+"/"+b
+		e.NObjs = rng.Range(1, 3)
+		e.Script = mkScript(d, e.NObjs)
+		vs := c15Versions(e.Rules)
+		nreq := 2
+		if rng.Chance(40) {
+			nreq = 3
+		}
+		steps := []int{d + 1}
+		same := 0
+		for k := 1; k < nreq; k++ {
+			q := c15Req{From: e.From, Desired: e.Desired, NObjs: rng.Range(1, 3)}
+			st := d
+			switch {
+			case rng.Chance(55):
+				same++ // the same pair of versions: the same rules, the same links
+			case rng.Chance(50) && d > 1:
+				// the tail of the chain: shares its last rules
+				q.From = c15Group + "/" + c15Trim(c15PathVia(e.Rules, a, b)[rng.Range(1, d-1)])
+				st = 6
+			default:
+				fa, fb := PickOne(rng, vs), PickOne(rng, vs)
+				if fa == fb {
+					same++
+					break
+				}
+				q.From, q.Desired = c15Group+"/"+fa, c15Group+"/"+fb
+				st = 6
+			}
+			if rng.Chance(8) {
+				q.NObjs = 0
+			}
+			q.Script = mkScript(st, q.NObjs)
+			e.More = append(e.More, q)
+			if st > 4 {
+				st = 4
+			}
+			steps = append(steps, st+1)
+		}
+		// the interleaving: a random merge of the stages of the requests (a few moves may be left for
+		// the end, some requests then finish one after the other)
+		for qi, st := range steps {
+			for k := 0; k < st; k++ {
+				e.Sched = append(e.Sched, qi)
+			}
+		}
+		rng.Shuffle(len(e.Sched), func(i, j int) { e.Sched[i], e.Sched[j] = e.Sched[j], e.Sched[i] })
+		if rng.Chance(50) {
+			// the first request is handled first (cold cache: compared with the model as well)
+			for i, qi := range e.Sched {
+				if qi == 0 {
+					e.Sched[0], e.Sched[i] = e.Sched[i], e.Sched[0]
+					break
+				}
+			}
+		}
+		e.NHooks = rng.Range(1, 3)
+		for range e.Rules {
+			e.Owner = append(e.Owner, rng.Intn(e.NHooks))
+		}
+		if rng.Chance(50) {
+			nb := make([]int, e.NHooks)
+			for h := range nb {
+				nb[h] = rng.Range(1, 3)
+			}
+			for i := range e.Rules {
+				e.Bind = append(e.Bind, rng.Intn(nb[e.Owner[i]]))
+			}
+		}
+		for h := 0; h < e.NHooks; h++ {
+			e.Rate = append(e.Rate, rng.Chance(30))
+		}
+		if same > 0 {
+			c.Note("overlap:requests-for-the-same-pair-of-versions")
+		}
+		if same < nreq-1 {
+			c.Note("overlap:requests-for-different-pairs-of-versions")
+		}
+		c.Note("case:overlap")
+		c.Desc = fmt.Sprintf("overlap: %d requests in flight (%s>%s ×%d …), order %s", nreq, a, b, same+1, joinInts(e.Sched))
+		c15RunE2E(r, c, e)
+	})
+}
+
+// c15PathVia returns the versions a shortest rule sequence from a to b passes (a … b), short spelling.
+func c15PathVia(rules []c15Rule, a, b string) []string {
+	prev := map[string]string{c15Trim(a): ""}
+	queue := []string{c15Trim(a)}
+	for len(queue) > 0 {
+		u := queue[0]
+		queue = queue[1:]
+		if u == c15Trim(b) {
+			break
+		}
+		for _, rl := range rules {
+			if c15Trim(rl.From) == u {
+				if _, ok := prev[c15Trim(rl.To)]; !ok {
+					prev[c15Trim(rl.To)] = u
+					queue = append(queue, c15Trim(rl.To))
+				}
+			}
+		}
+	}
+	var path []string
+	for v := c15Trim(b); ; v = prev[v] {
+		path = append([]string{v}, path...)
+		if v == c15Trim(a) {
+			break
+		}
+		if _, ok := prev[v]; !ok {
+			return []string{c15Trim(a), c15Trim(b)}
+		}
+	}
+	return path
 }
